@@ -123,7 +123,9 @@ class Exec:
 
     def binop(self, op, a, b):
         if a.ty == 'bool':
-            f = {'BitAnd': z3.And, 'BitOr': z3.Or, 'BitXor': z3.Xor, 'Eq': lambda x, y: x == y, 'Ne': lambda x, y: x != y}.get(op)
+            f = {'BitAnd': z3.And, 'BitOr': z3.Or, 'BitXor': z3.Xor, 'Eq': lambda x, y: x == y, 'Ne': lambda x, y: x != y,
+                 # false < true
+                 'Le': lambda x, y: z3.Or(z3.Not(x), y), 'Lt': lambda x, y: z3.And(z3.Not(x), y), 'Ge': lambda x, y: z3.Or(x, z3.Not(y)), 'Gt': lambda x, y: z3.And(x, z3.Not(y))}.get(op)
             if not f:
                 raise Refuse('bool op ' + op)
             return Val(f(a.t, b.t), 'bool')
@@ -716,7 +718,12 @@ class Exec:
             av = self.operand(st, a) if not a.strip().startswith('const') else None
             bv = self.operand(st, b) if not b.strip().startswith('const') else None
             if av is None:
-                self.hint = bv.ty if bv is not None else dst_ty
+                if bv is not None:
+                    self.hint = bv.ty
+                else:
+                    # both operands are constants: the typed literal (`const 8_usize`) gives the operand type, not the destination
+                    mt = re.search(r'const -?\d+_(\w+)$', b.strip()) or re.search(r'const -?\d+_(\w+)$', a.strip())
+                    self.hint = mt.group(1) if mt else (dst_ty if m.group(1) not in ('Lt', 'Le', 'Gt', 'Ge', 'Eq', 'Ne') else 'usize')
                 av = self.operand(st, a)
             if bv is None:
                 self.hint = av.ty
